@@ -373,4 +373,32 @@ def r6_unescape_copies(ctx):
         ctx.floor("R6", "Owned exits of unescape_with", nown, 1, config=cfg)
 
 
-RULES = [("R1", r1_sets), ("R2", r2_inverse), ("R2b", r2b_copy_discipline), ("R3", r3_borrowed), ("R4", r4_pairing), ("R5", r5_charref), ("R6", r6_unescape_copies)]
+def r7_escaped_is_utf8(ctx):
+    """An event built from a Rust string (escaped text, CDATA pieces) holds UTF-8 bytes and must say so: unescaping it
+    later decodes with the event's decoder, so tagging string-derived bytes with a document's decoder breaks
+    unescape(escape(s)) == s for non-ASCII s in a non-UTF-8 document."""
+    for cfg, F in ctx.facts.items():
+        n = 0
+        for b in F.bodies:
+            if not b.loc(b.j["span"]).startswith("src/events/") or is_derive(b) or "::tests" in b.path:
+                continue
+            if not any((callee_of(t)[0] or "").endswith("::wrap") for _, t in b.calls()):
+                continue
+            seen = set()
+            for p in ctx.paths(b):
+                for c in calls(p):
+                    if not (isinstance(c[2], str) and c[2].endswith("::wrap") and len(c[3]) == 2):
+                        continue
+                    content, dec = c[3]
+                    from_str = has_subterm(content, lambda s2: s2[0] == "call" and name_is(s2[2], "as_bytes", "into_bytes", "str_cow_to_bytes", "escape::escape", "escape::partial_escape", "escape::minimal_escape"))
+                    if not from_str or c[1] in seen:
+                        continue
+                    seen.add(c[1])
+                    n += 1
+                    d0 = strip_wrappers(dec)
+                    utf8 = call_is(d0, "Decoder::utf8") or (d0[0] == "agg" and "UTF_8" in str(d0[3])) or (d0[0] == "agg" and d0[1].endswith("Decoder") and not d0[3])
+                    ctx.ob("R7", "%s:string-bytes-are-utf8" % sym.short(strip_generics(b.path)), utf8, "bytes that come from a Rust string are wrapped with Decoder::utf8(), found %s" % sym.show(d0, 2)[:60], loc=b.loc(c[4]), config=cfg)
+        ctx.floor("R7", "events built from strings", n, 5, config=cfg)
+
+
+RULES = [("R1", r1_sets), ("R2", r2_inverse), ("R2b", r2b_copy_discipline), ("R3", r3_borrowed), ("R4", r4_pairing), ("R5", r5_charref), ("R6", r6_unescape_copies), ("R7", r7_escaped_is_utf8)]
